@@ -74,7 +74,11 @@ func (d *driver) searchPromises() *t_api.Request {
 
 func (d *driver) searchSchedules() *t_api.Request {
 	h := sapi.New(nil, "verif")
-	req, e := h.SearchSchedules(d.pick([]string{"*", "sc*", "*1", "sc2"}), nil, []int{1, 1, 2, 100}[d.r.Intn(4)], "")
+	tags := map[string]string(nil)
+	if d.r.Intn(3) == 0 {
+		tags = map[string]string{"team": "a"}
+	}
+	req, e := h.SearchSchedules(d.pick([]string{"*", "sc*", "*1", "sc2"}), tags, []int{1, 1, 2, 100}[d.r.Intn(4)], "")
 	if e != nil {
 		panic(e)
 	}
@@ -455,7 +459,7 @@ func (d *driver) gen() *t_api.Request {
 			ptags = map[string]string{"x": "y"}
 		}
 		return &t_api.Request{Kind: t_api.CreateSchedule, CreateSchedule: &t_api.CreateScheduleRequest{
-			Id: d.pick(d.sched), Description: d.pick([]string{"", "d"}), Cron: d.pick(d.crons), Tags: map[string]string(nil),
+			Id: d.pick(d.sched), Description: d.pick([]string{"", "d"}), Cron: d.pick(d.crons), Tags: []map[string]string{nil, {"team": "a"}, {"team": "b"}}[d.r.Intn(3)],
 			PromiseId: d.pick([]string{"{{.id}}.{{.timestamp}}", "{{.id}}.{{.timestamp}}", "fixed"}), PromiseTimeout: []int64{0, 1, 500, 1000000}[d.r.Intn(4)],
 			PromiseParam: d.value(), PromiseTags: ptags, IdempotencyKey: d.key()}}
 	case "SearchPromises":
